@@ -77,8 +77,8 @@ def worker(cfg):
 
     def body(ctx):
         net = dl.build(arch, A, L, seed=cfg.get("seed", 1), symbolic_weights=cfg.get("symw", False), NN=NN)
-        xc, X, rc, R = dl.sym_inputs(ctx, A, L, B, ns)
-        rp = lambda m: dict(cfg, x=C.eval_chars(m, xc), refs=C.eval_chars(m, rc))
+        xc, X, rc, R = dl.sym_inputs(ctx, A, L, B, ns, concrete=(cfg["x"], cfg["refs"]) if cfg.get("x") is not None else None)
+        rp = lambda m: dict(cfg, x=(cfg["x"] if cfg.get("x") is not None else C.eval_chars(m, xc)), refs=(cfg["refs"] if cfg.get("x") is not None else C.eval_chars(m, rc)))
         extra = {"n_shuffles": cfg["n_shuffles_arg"]} if cfg.get("n_shuffles_arg") else {}          # must be ignored for a reference tensor
         try:
             if cfg.get("history_ops"):
@@ -157,6 +157,15 @@ def configs(tier):
           dict(arch="conv", A=2, L=2, B=1, ns=2, target=1), dict(arch="affine", A=2, L=3, B=1, ns=2, target=0, symw=True),
           dict(arch="dense1w", A=2, L=2, B=1, ns=1, target=0), dict(arch="dense1", A=2, L=2, B=1, ns=2, target=1, n_shuffles_arg=1),
           dict(arch="dense1", A=2, L=2, B=1, ns=1, target=0, history_ops=True)]
+    # depth 2-3: every (example, reference) pair of sequences is enumerated, the activations stay uninterpreted
+    import itertools as _it
+    def deep(arch, A, L, every):
+        seqs = [list(s_) for s_ in _it.product(range(A), repeat=L)]
+        pairs = [(a, b) for a in seqs for b in seqs]
+        return [dict(arch=arch, A=A, L=L, B=1, ns=1, target=(k % 2), x=[a], refs=[[b]]) for k, (a, b) in enumerate(pairs) if k % every == 0]
+    cf += deep("dense2", 2, 2, 2 if q else 1)
+    if not q:
+        cf += deep("dense3", 2, 2, 1) + deep("conv2", 2, 4, 5) + deep("dense2", 2, 3, 3)
     if not q:
         cf += [dict(arch="conv", A=2, L=3, B=1, ns=1, target=1), dict(arch="convavg", A=2, L=3, B=1, ns=1, target=1),
                dict(arch="dense1w", A=2, L=3, B=1, ns=1, target=0), dict(arch="convpad", A=2, L=3, B=1, ns=1, target=1),
